@@ -37,11 +37,27 @@ def run(chk, facts):
     # ---------------- R-C14-4 ----------------
     parse_fns = [f for f in syn.fns if f["mod"].startswith("parse::") and not f["mod"].startswith("parse::lex") and f["mod"] != "parse::iterator" and f.get("body") and not f.get("derived")]
     # tolerant entry points: functions whose first token-consuming action is eat_while(NL)
+    # (fixpoint: a function that starts by calling / parsing a tolerant function is tolerant itself - `skip_blank_lines(it)`)
     tolerant_fns = set()
-    for f in parse_fns:
-        first = _first_consumption(f["body"])
-        if first is not None and first.get("k") == "mcall" and first["m"] == "eat_while" and _arg0(first) == NL:
-            tolerant_fns.add(f["name"])
+    names = {f["name"] for f in parse_fns}
+    changed = True
+    while changed:
+        changed = False
+        for f in parse_fns:
+            if f["name"] in tolerant_fns:
+                continue
+            first = _first_consumption(f["body"], names)
+            tol = False
+            if first is not None and first.get("k") == "mcall" and first["m"] == "eat_while" and _arg0(first) == NL:
+                tol = True
+            elif first is not None and first.get("k") == "call" and first["f"]["p"].split("::")[-1] in tolerant_fns:
+                tol = True
+            elif first is not None and first.get("k") == "mcall" and first["m"] in ("parse", "parse_vec") and first["args"] and \
+                    src(strip(first["args"][0])).lstrip("&") in tolerant_fns:
+                tol = True
+            if tol:
+                tolerant_fns.add(f["name"])
+                changed = True
     n_sites = 0
     for f in parse_fns:
         pm = parents_map(f["body"])
@@ -178,9 +194,12 @@ def _arg0(n):
     return src(n["args"][0]).replace(" ", "") if n["args"] else ""
 
 
-def _first_consumption(body):
-    """first call in source order that consumes tokens (eat*/parse*) - approximates `the function starts with ..`"""
+def _first_consumption(body, fn_names=()):
+    """first call in source order that consumes tokens (eat*/parse*, or a direct call of another parser function) - approximates
+    `the function starts with ..`"""
     for n in walk(body):
+        if n.get("k") == "call" and n["f"].get("k") == "path" and n["f"]["p"].split("::")[-1] in fn_names:
+            return n
         if n.get("k") == "mcall" and n["m"] in ("eat", "eat_if", "eat_while", "parse", "parse_vec", "parse_if", "parse_vec_if", "peek_while_not_token", "peek_while_not_tokens", "peek_while_fn", "peek", "peek_or_err"):
             return n
     return None
